@@ -62,15 +62,27 @@ LawsHoldOnSpec == ph = 1 =>
     /\ \A q \in FullQueries(p) : /\ Failed(q, SpecObs(q)) = {}
                                  /\ GitFailed(q, [rt |-> SetToSeq(GitSpecOut(q))]) = {}
                                  /\ DriftKeys(q, SpecObs(q)) = {}
-\* anti-vacuity witnesses: TLC must find these states
-WitnessParentsRule == ~(ph = 1 /\ \E F \in FilterFamily(PathUnion(p)) :
-                          \E c \in Restrict(p.s, p.t, F) : c.id \notin Selected(p.s, p.t, F))
-WitnessDirRenameChild == ~(\E i \in Versioned(p.s) : p.s[i] = p.t[i] /\ Path(p.s, i) # Path(p.t, i))
-WitnessSwap == ~(\E i, j \in Versioned(p.s) : i # j /\ p.t[i].v /\ p.t[j].v /\ Path(p.s, i) = Path(p.t, j) /\ Path(p.s, j) = Path(p.t, i))
-WitnessKindChange == ~(\E i \in Versioned(p.s) : p.t[i].v /\ p.s[i].kind # p.t[i].kind)
-WitnessExtras == ~(p.tx # {} /\ p.s # p.t)
+\* anti-vacuity witnesses: TLC must find these states (one concrete pair each, so that few traces are printed)
+Full == HomeTree(Ids)
+At(s, t, tx) == ph = 1 /\ p.s = s /\ p.t = t /\ p.tx = tx
+\* adding d/ and d/a, filter {d/a}: the delta must also carry the added parent, which the filter does not select
+WitnessParentsRule == ~(/\ At(HomeTree({"fa"}), HomeTree({"fa", "dd", "fda"}), {})
+                        /\ \E c \in Restrict(p.s, p.t, {<<"d", "a">>}) : c.id \notin Selected(p.s, p.t, {<<"d", "a">>}))
+\* renaming d/ leaves the entry of d/a unchanged while its path changes
+WitnessDirRenameChild == ~(/\ At(Full, [Full EXCEPT !["dd"].name = "c"], {})
+                           /\ p.s["fda"] = p.t["fda"] /\ Path(p.s, "fda") # Path(p.t, "fda")
+                           /\ Diff(p.s, p.t) = {ChangeOf(p.s, p.t, "dd")})
+WitnessSwap == ~(/\ At(Full, [Full EXCEPT !["fa"].name = "b", !["fb"].name = "a"], {})
+                 /\ Path(p.s, "fa") = Path(p.t, "fb") /\ Path(p.s, "fb") = Path(p.t, "fa"))
+WitnessKindChange == ~(/\ At(Full, [Full EXCEPT !["fa"] = Entry(ROOT, "a", "directory", FALSE, 0)], {})
+                       /\ ChangeOf(p.s, p.t, "fa").cc)
+WitnessExtras == ~(/\ At(Full, [Full EXCEPT !["fb"].content = 1], {ROOT})
+                   /\ Cardinality(SpecOut(Query(p, <<"all">>, FALSE, TRUE), TRUE)) = 2)
 \* the filter rule guarantees parents, not unique names: a filtered delta can put an entry on a still-occupied name
-WitnessNameCollision == ~(ph = 1 /\ \E F \in FilterFamily(PathUnion(p)) : ~NamesUnique(Apply(p.s, Restrict(p.s, p.t, F), p.t)))
+\* (a -> c, b -> a, filter {b}: the delta moves b onto a while a is still there)
+WitnessNameCollision == ~(/\ At(HomeTree({"fa", "fb"}), [HomeTree({"fa", "fb"}) EXCEPT !["fa"].name = "c", !["fb"].name = "a"], {})
+                          /\ ~NamesUnique(Apply(p.s, Restrict(p.s, p.t, {<<"b">>}), p.t))
+                          /\ ParentsValid(Apply(p.s, Restrict(p.s, p.t, {<<"b">>}), p.t)))
 Export == JsonSerialize(IOEnv.VF_OUT, SetToSeq({[s |-> x.s, t |-> x.t, tx |-> SetToSeq(x.tx), paths |-> SetToSeq(PathUnion(x))] : x \in AllPairs}))
 ASSUME IF "VF_OUT" \in DOMAIN IOEnv THEN Export ELSE TRUE
 =============================================================================
